@@ -182,7 +182,7 @@ func (s *channelState) decrementSendWindow(ctx async.Context, data []byte) statu
 		// Wait for send window increment
 		select {
 		case <-ctx.Wait():
-			return ctx.Status()
+			return contextStatus(ctx)
 		case <-s.ctx.Wait():
 			return statusChannelClosed
 		case <-s.sendWindowWait:
